@@ -43,7 +43,9 @@ def init_mimetypes(config: ConfigParser) -> None:
         logger.log(errmsg)
         raise Exception(errmsg)
 
-    encoding = eval(config.get("pygopherd", "encoding"))
+    # The documented default, mimetypes.encodings_map.items(), is a live view
+    # of the very map that is cleared below: take the pairs first.
+    encoding = list(eval(config.get("pygopherd", "encoding")))
     mimetypes.encodings_map.clear()
     for key, value in encoding:
         mimetypes.encodings_map[key] = value
